@@ -67,7 +67,7 @@ func (w *webhookExecutorEtag) adjustResponse(
 	if request.Header.Get(headerIfNoneMatch) != "" && (response.StatusCode == http.StatusNotModified || response.StatusCode == http.StatusPreconditionFailed) {
 		logging.Logger.Info("retrieving body from cache", "cacheKey", cacheKey)
 		cacheEntry, cacheEntryExists := w.etagCache.Get(cacheKey)
-		if !cacheEntryExists {
+		if !cacheEntryExists || cacheEntry.Etag != request.Header.Get(headerIfNoneMatch) {
 			return nil, fmt.Errorf("cannot find cached response for cache key: %s", cacheKey)
 		}
 		return cacheEntry.Response, nil
